@@ -51,7 +51,7 @@ NA_REASON = {
 }
 
 # checks delivered with a meta file (checks/cNN.meta.json: text, note, technique, ref) and listed here as ready
-READY = ["C01", "C02", "C03", "C04", "C05", "C06", "C07", "C08", "C14", "C15", "C18", "C19", "C20", "C22", "C23", "C24", "C25", "C28", "C29", "C30", "C32", "C34", "C36", "C37", "C38", "C39"]
+READY = ["C01", "C02", "C03", "C04", "C05", "C06", "C07", "C08", "C14", "C15", "C18", "C19", "C20", "C21", "C22", "C23", "C24", "C25", "C26", "C27", "C28", "C29", "C30", "C32", "C33", "C34", "C36", "C37", "C38", "C39"]
 for pid in READY:
   mf = os.path.join(V, "checks", f"{pid.lower()}.meta.json")
   if pid not in CHECKS and os.path.exists(mf):
